@@ -74,6 +74,9 @@ type DCase struct {
 	OnlyInc     int    `json:"only_inc"`
 	OnlyK       int    `json:"only_k"` // >=0: check only this crash point
 	OnlyTorn    int    `json:"only_torn"`
+	// lazy-load-shard-enable of the store configuration (product default: true): after a restart a shard is opened by the
+	// first write or read that needs it.  Absent in older replay files = false (what the first version of this world ran)
+	Lazy bool `json:"lazy,omitempty"`
 }
 
 type worldD struct{}
@@ -313,6 +316,7 @@ func (worldD) Gen(r *core.Rand, env *core.Env) DCase {
 			}
 		}
 	}
+	c.Lazy = r.Intn(10) < 7 // drawn last: the rest of the case is what the seed gave before this knob existed
 	return c
 }
 
@@ -535,7 +539,7 @@ type dNode struct {
 func (run *dRun) engineOptions() EngineOptions {
 	o := sEngineOptions(run.c.Knobs)
 	o.OpenShardLimit = 8
-	o.LazyLoadShardEnable = false
+	o.LazyLoadShardEnable = run.c.Lazy || os.Getenv("VERIF_D_LAZY") == "1"
 	o.MaxRowsPerSegment = run.c.Knobs.RowsPerSegment
 	// The compaction section of the options as ts-store fills it (app/ts-store/storage/storage.go, NewStorage) from the
 	// corrected configuration (app/ts-store/run/server.go: conf.Data.Corrector -> Store.CorrectorThroughput).  NewEngine
